@@ -192,7 +192,7 @@ func C03(tier string) int {
 		Rule: "stateless depth-first exploration of every schedule of 2-3 logical threads (Update (committing, returning an error, panicking, failing at its first sync) / View / manual Begin-Rollback-Commit / Stats / Close bodies on two colliding counter keys) with at most the stated number of preemptions; scheduling points before every lock acquire, after every release, at every channel/once operation and at every I/O call of the real code; each execution is judged by the serial-replay oracle (ids consecutive, every read explained by the serial order, failed bodies leave no trace, real-time order, single writer) and by the scheduler's deadlock verdict; a distinct case is a distinct observation log",
 		Assumptions: []string{"data-race freedom is not decided by the cooperative scheduler: auxiliary free-running -race pass (aux_race_pass) covers the same driver bodies",
 			"go memory model effects beyond sequential consistency are not modelled"},
-		Quick: 100 * time.Second, Thorough: 25 * time.Minute,
+		Quick: 100 * time.Second, Thorough: 10 * time.Minute,
 		Extra: auxRace,
 	}, tier)
 }
